@@ -92,6 +92,10 @@ def round_(left: float | int, digits: int | None = None) -> float | int:
 
     if _digits < 0:
         # Round to tens, hundreds, ... The result is an integer.
+        if isinstance(left, int) and -_digits > left.bit_length():
+            # 10 ** -digits is more than twice the number, which rounds to
+            # zero. Don't let `round` compute that power, it can be huge.
+            return 0
         return int(round(left, _digits))
     if _digits == 0:
         return round(left)
